@@ -13,6 +13,11 @@ func (b Builder) FtSugadd() (c FtSugadd) {
 }
 
 func (c FtSugadd) Key(key string) FtSugaddKey {
+	if c.ks&NoSlot == NoSlot {
+		c.ks = NoSlot | slot(key)
+	} else {
+		c.ks = check(c.ks, slot(key))
+	}
 	c.cs.s = append(c.cs.s, key)
 	return (FtSugaddKey)(c)
 }
@@ -76,6 +81,11 @@ func (b Builder) FtSugdel() (c FtSugdel) {
 }
 
 func (c FtSugdel) Key(key string) FtSugdelKey {
+	if c.ks&NoSlot == NoSlot {
+		c.ks = NoSlot | slot(key)
+	} else {
+		c.ks = check(c.ks, slot(key))
+	}
 	c.cs.s = append(c.cs.s, key)
 	return (FtSugdelKey)(c)
 }
@@ -103,6 +113,11 @@ func (b Builder) FtSugget() (c FtSugget) {
 }
 
 func (c FtSugget) Key(key string) FtSuggetKey {
+	if c.ks&NoSlot == NoSlot {
+		c.ks = NoSlot | slot(key)
+	} else {
+		c.ks = check(c.ks, slot(key))
+	}
 	c.cs.s = append(c.cs.s, key)
 	return (FtSuggetKey)(c)
 }
@@ -208,6 +223,11 @@ func (b Builder) FtSuglen() (c FtSuglen) {
 }
 
 func (c FtSuglen) Key(key string) FtSuglenKey {
+	if c.ks&NoSlot == NoSlot {
+		c.ks = NoSlot | slot(key)
+	} else {
+		c.ks = check(c.ks, slot(key))
+	}
 	c.cs.s = append(c.cs.s, key)
 	return (FtSuglenKey)(c)
 }
